@@ -45,8 +45,9 @@ Kind(cls) == IF cls \in EmbCls THEN "emb" ELSE IF cls \in PtrCls THEN "ptr" ELSE
 SizeOf(cls) == CASE cls = "rat" -> 8 [] cls = "srat" -> 8 [] cls = "rat3" -> 24 [] cls = "rat4" -> 32
                  [] cls = "date" -> 20 [] cls = "date11" -> 11 [] cls = "zone" -> 7 [] cls = "subsec" -> 7 [] cls = "subsec5" -> 5
                  [] cls = "ascii9" -> 9 [] cls = "ascii33" -> 33 [] cls = "ascii5" -> 5 [] cls = "fOol" -> 8
+                 [] cls = "long2" -> 8                  \* two LONGs (a two-strip image): out of line; which of them is reported is not defined, II and MM must agree
                  [] OTHER -> 4
-Known(cls) == cls \notin {"fEmb", "fOol", "inv"} \cup PtrCls      \* classes that produce a reported field
+Known(cls) == cls \notin {"fEmb", "fOol", "inv", "long2"} \cup PtrCls      \* classes that produce a reported field (a LONG array is not fetched: as coded, its slot is what is looked at)
 Child(cls) == IF cls = "exifptr" THEN "Exif" ELSE "GPS"
 
 BulkEntries == {[key |-> 1000 + i, ifd |-> "IFD0", cls |-> "fOol"] : i \in 1..bulk}
